@@ -21,6 +21,9 @@ class Hub:
     def __init__(self, corrupt=(), holds=None, max_hold=0.08, mode="firmware", instant=False):
         self.instant = instant           # zero latency: the reply is read and handled by the host's reader BEFORE write() returns
         self.auto = None                 # manual mode: callable(data) -> lines said at once (zero latency) for that transmission
+        self.njob = 1                    # streamed jobs on this connection so far (run_job with next_jobs)
+        self.job_first = True            # the next job-phase transmission is the first of its job
+        self.corrupt_open = set()        # job numbers whose opening M110 the link corrupts
         self.lock = threading.RLock()
         self.events = []
         self.corrupt = set(corrupt)      # indices (0-based) of job-phase transmissions the link corrupts
@@ -52,6 +55,9 @@ class Hub:
             i = self.ntx
             self.ntx += 1
             bad = i in self.corrupt and data.startswith(b"N")    # un-numbered priority commands carry no checksum: not corrupted here
+            if self.job_first and self.njob in self.corrupt_open and b"M110" in data:
+                bad = True
+            self.job_first = False
             self.events.append({"k": "tx", "text": list(data), "bad": bad, "i": i})
             target = None
             if self.mode == "manual" and self.auto is not None:
@@ -289,11 +295,13 @@ def strip_job_line(raw):
     return code.strip()
 
 
-def run_job(lines, corrupt=(), holds=None, deadline=20.0, pauses=(), instant=False):
-    """Stream `lines` with the real printcore. Returns the trace."""
+def run_job(lines, corrupt=(), holds=None, deadline=20.0, pauses=(), instant=False, next_jobs=(), corrupt_open=()):
+    """Stream `lines` with the real printcore (then, on the same connection, each job of `next_jobs`). Returns the trace."""
     from gscrib.printrun import gcoder
     from gscrib.printrun.printcore import printcore
     hub = Hub(corrupt=corrupt, holds=holds, instant=instant)
+    hub.corrupt_open = set(corrupt_open)
+    later = [list(j) for j in next_jobs]
     job = [strip_job_line(x) for x in lines]
     job = [x for x in job if x]
     joined = False
@@ -344,6 +352,18 @@ def run_job(lines, corrupt=(), holds=None, deadline=20.0, pauses=(), instant=Fal
                     if idle_since is None:
                         idle_since = time.monotonic()
                     elif time.monotonic() - idle_since > 0.05:
+                        if later:
+                            # the job is over and the link has drained: the next job on the same connection
+                            nxt = later.pop(0)
+                            jl = [x for x in (strip_job_line(y) for y in nxt) if x]
+                            with hub.lock:
+                                hub.events.append({"k": "newjob", "job": [list(x.encode("ascii")) for x in jl]})
+                                hub.njob += 1
+                                hub.job_first = True
+                            if not p.startprint(gcoder.GCode(nxt)):
+                                raise RuntimeError("startprint refused")
+                            idle_since = None
+                            continue
                         joined = True
                         break
                 else:
@@ -358,14 +378,15 @@ def run_job(lines, corrupt=(), holds=None, deadline=20.0, pauses=(), instant=Fal
                 p.disconnect()
             except Exception:
                 pass
-    ev = [e for e in hub.events if e["k"] in ("tx", "rel", "end", "pause", "resume")]
+    ev = [e for e in hub.events if e["k"] in ("tx", "rel", "end", "pause", "resume", "newjob")]
     for e in ev:
         e.setdefault("text", [])
         e.setdefault("bad", False)
         e.setdefault("joined", False)
+        e.setdefault("job", [])
         e.pop("i", None)
     return {"meta": {"corrupt": sorted(corrupt), "holds": {str(k): v for k, v in (holds or {}).items()}, "pauses": sorted(pauses),
-                     "instant": bool(instant)},
+                     "instant": bool(instant), "jobs": 1 + len(next_jobs), "corrupt_open": sorted(corrupt_open)},
             "job": [list(x.encode("ascii")) for x in job], "raw": lines, "ev": ev}
 
 
